@@ -31,8 +31,7 @@ RULE = ("one seeded PRNG draws script trees (random shapes, balanced, left/right
         "the Lean model; non-trivial = the implementation answered (did not refuse); distinct = distinct "
         "(stream, op line).  Oracles are evaluated on the real code alone.")
 TRUSTED = ["SHA-256 / tagged hash of the model is executable Lean validated against hashlib each run (hash.* streams)",
-           "that `Btc.EC.ops secp256k1` is a lawful group (hypothesis `Lawful`, property C01) and that affine "
-           "y-parity is a function of the group element (hypothesis `YCongr`)",
+           "that `Btc.EC.ops secp256k1` is a lawful group (hypothesis `Lawful`, property C01's business)",
            "taproot.serialize (command list -> tapscript bytes) is outside this property: leaves are compared as bytes",
            "collision resistance of the tagged hash: soundness is a REDUCTION to an explicit collision / tweak alias"]
 ASSUMPTIONS = ["libsecp256k1's xonly tweak functions are compared with the model, not verified"]
@@ -523,9 +522,31 @@ def _o_keypath(w):
     return f"{d2:064x}" == v["intermediary"]["tweakedPrivkey"], f"{d2:064x}"
 
 
+def _guard(fn):
+    """an oracle that raises has found something: the real code left through an exception it should not"""
+    def g(w):
+        try:
+            return fn(w)
+        except Exception as e:  # noqa: BLE001
+            return False, f"{fn.__name__} raised {type(e).__name__}: {str(e)[:200]}"
+    g.__name__ = fn.__name__
+    return g
+
+
 ORACLES = {"cb.proves": _o_proves, "cb.bitflip": _o_bitflip, "tweak.agree": _o_agree, "key.refused": _o_refuse,
            "tweak.range": _o_tweak_range, "backends.agree": _o_backends, "desc.tr": _o_desc, "bip341.vector": _o_bip341,
            "bip341.keypath": _o_keypath}
+ORACLES = {k: _guard(v) for k, v in ORACLES.items()}
+
+
+def _o_answers(w):
+    """valid key and tree: output_pubkey answers (used where the run itself needs the answer)"""
+    with arm(w["arm"]):
+        T.output_pubkey(None if w["key"] is None else bytes.fromhex(w["key"]), tree_of(w["tree"]))
+    return True, "answered"
+
+
+ORACLES["outpub.answers"] = _guard(_o_answers)
 
 NUMS = "0250929b74c1a04954b78b4b6035e97a5e078a5a0f28ec96d547bfee9ace803ac0"
 
@@ -578,6 +599,8 @@ def run(ctx):
             idx = list(range(nl))
             if big and (a == "py" or ctx.tier == "quick"):
                 idx = sorted(set([0, 1, nl - 2, nl - 1] + rng.sample(idx, 6)))
+            if not ctx.check("outpub.answers", {"key": None if keyhex == "-" else keyhex, "tree": tk, "arm": a}):
+                continue
             with arm(a):
                 q = T.output_pubkey(None if keyhex == "-" else unhx(keyhex), tree)[0]
             for i in idx:
@@ -606,7 +629,10 @@ def run(ctx):
                             m = f"check@{a} {hx(rng.choice([b'', b'\x00' + q, q[1:], q + b'\x00', b'\x00' * 5 + q]))} {s_hex} {c_hex}"
                         L["check.mutated"].append(m)
             L["iss"] += [f"iss@{a} {keyhex} {tk} {j}" for j in (-1, nl, nl + 1, -nl)]
-        root = T.tree_helper(tree)[1]
+        try:
+            root = T.tree_helper(tree)[1]
+        except Exception:  # noqa: BLE001 - the `tree` stream above reports it
+            continue
         x = mult(d)[0].to_bytes(32, "big")
         a = rng.choice(arms)
         L["outpubroot"].append(f"outpubroot@{a} {hx(x)} {hx(root)}")
@@ -655,14 +681,18 @@ def run(ctx):
             ctx.check("backends.agree", {"sec": hyb.hex(), "tree": stk}, key="c12.backend.hybrid_internal_key")
         for _, sec in spellings(rng, d) + [("bad", s) for s in bad_secs(rng, d)[:6]]:
             ctx.check("backends.agree", {"sec": sec.hex(), "tree": rng.choice([stk, "-"])})
-    with arm("lib"):
-        qs, ss, cs = None, None, None
-        d = rng.randrange(1, N)
-        sec = spellings(rng, d)[0][1]
-        tr = chain(rng, 3, True)
-        qs = T.output_pubkey(sec, tr)[0]
-        sl, cs = T.input_script_sig(sec, tr, 0)
-        ss = T.serialize(list(sl))
+    d = rng.randrange(1, N)
+    sec = spellings(rng, d)[0][1]
+    tr = chain(rng, 3, True)
+    try:
+        with arm("lib"):
+            qs = T.output_pubkey(sec, tr)[0]
+            sl, cs = T.input_script_sig(sec, tr, 0)
+            ss = T.serialize(list(sl))
+    except Exception as e:  # noqa: BLE001
+        ctx.oracle("outpub.answers", False, f"output_pubkey / input_script_sig raised {type(e).__name__}: {e}",
+                   witness={"oracle": "outpub.answers", "witness": {"key": sec.hex(), "tree": tok_of(tr), "arm": "lib"}})
+        qs, ss, cs = bytes(32), b"\x51", b"\xc0" + bytes(32 + 96)
     cap = 33 + 32 * T.MAX_TREE_DEPTH
     lens = list(range(0, 70)) + [96, 97, 98, 128, 129, 130, cap - 32, cap - 1, cap, cap + 1, cap + 31, cap + 32, cap + 33]
     for n in lens:
